@@ -7,3 +7,4 @@ pub mod rp;
 pub mod hist;
 pub mod oracle;
 pub mod runner;
+pub mod rrdpview;
